@@ -35,7 +35,10 @@ def gen_repo(rng, quick):
             r[f] = {n: art_md(rng, i + 10) for i, n in enumerate(names_b)}
         elif f == "signatures" and rng.random() < 0.6:
             r[f] = rng.choice([{}, {"stale-0.1-0.tar.bz2": {PUBHEX[3]: {"signature": "0" * 128}}}, {"x": 5}, [], "junk", None,
-                               {n: {PUBHEX[2]: E.raw_sig(2, "old")} for n in names_a}])
+                               {n: {PUBHEX[2]: E.raw_sig(2, "old")} for n in names_a},
+                               # well-formed entries by the SAME keys the file is about to be signed with, over earlier metadata
+                               {n: {PUBHEX[0]: E.raw_sig(0, {"old": n}), PUBHEX[1]: E.raw_sig(1, {"old": n})} for n in names_a + names_b},
+                               {n: {PUBHEX[rng.randrange(2)]: E.raw_sig(rng.randrange(2), "previous")} for n in names_a + names_b + ["gone.conda"]}])
         elif f == "removed" and rng.random() < 0.4:
             r[f] = ["gone-1.0-0.tar.bz2"]
         elif f == "repodata_version" and rng.random() < 0.5:
@@ -111,12 +114,15 @@ def run(ctx):
         arts = [(n, md) for sec in ("packages", "packages.conda") for n, md in r.get(sec, {}).items()]
         if len(client) > (600 if ctx.quick else 20000):
             continue
+        sigsec = out.get("signatures") if isinstance(out, dict) and isinstance(out.get("signatures"), dict) else {}
         for n, md in arts:
-            U = {"signatures": out["signatures"][n], "signed": md}
+            if not isinstance(sigsec.get(n), dict):
+                continue      # a missing entry is reported by the first stream's oracle
+            U = {"signatures": sigsec[n], "signed": md}
             client.append({"w": wire.case("verify_delegation", "pkg_mgr", U, T, False), "meta": {"tag": "own"}})
             for n2, md2 in arts[:3]:
                 if n2 != n:
-                    client.append({"w": wire.case("verify_delegation", "pkg_mgr", {"signatures": out["signatures"][n], "signed": md2}, T, False),
+                    client.append({"w": wire.case("verify_delegation", "pkg_mgr", {"signatures": sigsec[n], "signed": md2}, T, False),
                                    "meta": {"tag": "cross"}})
 
     def again_oracle(c, io):
